@@ -783,7 +783,8 @@ NoViolation == bad = {}
 C01 == bad \cap {"C01_SameId", "C01_ExactTopics", "C01_SameOrigin"} = {}
 C02 == bad \cap {"C02_Order", "C02_Hidden"} = {}
 C05 == bad \cap {"C05_EphComplete", "C05_GuardSync"} = {}
-C07 == bad \cap {"C07_Rejoin", "C07_OneBranch"} = {}
+C07_OneBranch == \A g \in Filters : OutBal[g] => \A r \in plog[g] : Cardinality(r.outs) = 1
+C07 == bad \cap {"C07_Rejoin"} = {} /\ C07_OneBranch
 C03 == "C03_Prefix" \notin bad
 C03_AllDelivered == \A f \in Filters : C03Applies(f) => ndeliv[f] = Cardinality(ExpIds(f))
 C03_Complete == <>[]C03_AllDelivered
